@@ -1,6 +1,7 @@
 import Model.Paginate
 import Model.PaginateSpec
 import Proofs.Paginate
+import Proofs.PaginateGroups
 /-!
 # C04 — page breaks occur only when required, and always when required
 
@@ -207,6 +208,28 @@ theorem C04_e_changes {α} [DecidableEq α] (ks ext : List α) :
   cases ks with
   | nil => simp [changes]
   | cons k ks => simp [changes, changesFrom_append]
+
+
+/-! ## (d) no page mixes rows of two subline_by groups, nor of two page_by groups when new_page is set -/
+
+/-- Rows `i < j` that were put on the same page carry the same subline_by key, and the same page_by key when
+`new_page` forces breaks — for the metadata `mkMeta` derives from the keys (group change = key differs from the
+previous row's), provided every row is at least one line high (`max(1, …)` in `calculate_row_metadata`). -/
+theorem C04_d_no_mixing {κ : Type} [DecidableEq κ] (nrow additional : Nat) (hasPageBy hasSubline np : Bool)
+    (rows : List (RowIn κ)) (hpos : ∀ r ∈ rows, 1 ≤ r.dataRows)
+    (i j : Nat) (hij : i < j) (ri rj : RowIn κ) (p : Nat)
+    (hri : rows[i]? = some ri) (hrj : rows[j]? = some rj)
+    (hpi : (assignPages nrow additional np (mkMeta hasPageBy hasSubline rows))[i]? = some p)
+    (hpj : (assignPages nrow additional np (mkMeta hasPageBy hasSubline rows))[j]? = some p) :
+    (hasSubline = true → ri.skey = rj.skey) ∧
+    (hasPageBy = true → np = true → ri.pkey = rj.pkey) :=
+  Proofs.PaginateGroups.no_mixing_aux (availRows nrow additional) hasPageBy hasSubline np rows hpos
+    1 0 false i j hij ri rj p hri hrj hpi hpj
+
+/-- non-vacuity: keys a a b b with nrow large: the change of key forces the break -/
+example :
+    assignPages 40 0 true (mkMeta true false
+      [⟨1, 1, 1, "a", ""⟩, ⟨1, 1, 1, "a", ""⟩, ⟨1, 1, 1, "b", ""⟩, ⟨1, 1, 1, "b", ""⟩]) = [1, 1, 2, 2] := by decide
 
 /-! ## non-vacuity: a concrete table that breaks for both reasons -/
 
